@@ -230,9 +230,14 @@ class _BaseFunctionParser:
         return self.implicit_arg and "." in self.call[: self.first_parens]
 
     def _get_source_range(self, tree):
-        start = self._lines.get_line_start(tree.lineno) + tree.col_offset
-        end = self._lines.get_line_start(tree.end_lineno) + tree.end_col_offset
+        start = self._get_offset(tree.lineno, tree.col_offset)
+        end = self._get_offset(tree.end_lineno, tree.end_col_offset)
         return self._lines.code[start:end]
+
+    def _get_offset(self, lineno, col_offset):
+        # ast column offsets count UTF-8 bytes, not characters
+        line = self._lines.get_line(lineno).encode("utf-8")
+        return self._lines.get_line_start(lineno) + len(line[:col_offset].decode("utf-8"))
 
 
 class _FunctionDefParser(_BaseFunctionParser):
